@@ -278,7 +278,7 @@ pub fn cases_for(prop: &str, tier: &str, seed: u64, shard: (usize, usize)) -> (V
                 let hl = rng.range(2, if tier == "thorough" { 49 } else { 8 });
                 for _ in 0..hl {
                     let text = if c.schema == minimal && rng.pct(40) {
-                        cyclic_doc(rng.range(1, 3), (rng.next() & 0x1FF) as u32, rng.below(3), rng.below(3), rng.below(3), rng.below(8) as u32).print()
+                        cyclic_doc(rng.range(1, 3), rng.next() & 0x1FF, rng.below(3), rng.below(3), rng.below(3), rng.below(8) as u32).print()
                     } else if rng.pct(40) {
                         crate::genvalid::VGen::new(rng.fork(), &pool[c.schema], 3).doc().print()
                     } else {
@@ -462,7 +462,7 @@ pub fn cases_for(prop: &str, tier: &str, seed: u64, shard: (usize, usize)) -> (V
             for i in 0..(n / 4) {
                 let k = rng.range(1, 3);
                 let edges = (rng.next() & 0x1FF) as u32;
-                let doc = cyclic_doc(k, edges, rng.below(3), rng.below(3), rng.below(3), rng.below(8) as u32).print();
+                let doc = cyclic_doc(k, edges as u64, rng.below(3), rng.below(3), rng.below(3), rng.below(8) as u32).print();
                 cases.push(Case { id: format!("cg{}x{}", shard.0, i), family: "fragment-graph".into(), schema: minimal, op: "collect".into(), doc: Some(doc), extra: vec![], note: String::new() });
             }
             if shard.0 == 0 {
@@ -551,32 +551,41 @@ fn wrap(inner: Vec<GSel>, depth: usize, style: usize) -> Vec<GSel> {
 /// of the fragments, so that definition order and spread order are independent of the DAG's order),
 /// then all fragments spread from the operation and no conflicting noise: valid documents
 pub fn graph4_doc(rng: &mut Rng) -> GDoc {
-    let mut edges = (rng.next() & 0xFFFF) as u32;
+    graphk_doc(rng, 4)
+}
+
+/// k fragments (k <= 6), sparse edge sets: acyclic half of the time (edges only along a random order)
+pub fn graphk_doc(rng: &mut Rng, k: usize) -> GDoc {
+    let bits = k * k;
+    let mut edges: u64 = rng.next() & ((1u64 << bits) - 1);
+    if k > 4 {
+        edges &= rng.next(); // sparser graphs on more fragments
+    }
     let acyclic = rng.pct(50);
     if acyclic {
-        let mut perm = [0usize, 1, 2, 3];
-        for a in (1..4).rev() {
+        let mut perm: Vec<usize> = (0..k).collect();
+        for a in (1..k).rev() {
             let b = rng.below(a + 1);
             perm.swap(a, b);
         }
-        let mut m = 0u32;
-        for f in 0..4 {
-            for g in 0..4 {
+        let mut m = 0u64;
+        for f in 0..k {
+            for g in 0..k {
                 if perm[f] < perm[g] {
-                    m |= 1 << (f * 4 + g);
+                    m |= 1 << (f * k + g);
                 }
             }
         }
         edges &= m;
     }
     if acyclic {
-        cyclic_doc(4, edges, rng.below(3), rng.below(3), 1, (rng.below(4) * 2) as u32)
+        cyclic_doc(k, edges, rng.below(3), rng.below(3), 1, (rng.below(4) * 2) as u32)
     } else {
-        cyclic_doc(4, edges, rng.below(3), rng.below(3), rng.below(3), rng.below(8) as u32)
+        cyclic_doc(k, edges, rng.below(3), rng.below(3), rng.below(3), rng.below(8) as u32)
     }
 }
 
-pub fn cyclic_doc(k: usize, edges: u32, depth: usize, style: usize, reach: usize, noise: u32) -> GDoc {
+pub fn cyclic_doc(k: usize, edges: u64, depth: usize, style: usize, reach: usize, noise: u32) -> GDoc {
     let f = |n: &str| GSel::Field { alias: None, name: n.into(), args: vec![], dirs: vec![], sels: vec![] };
     let mut defs = vec![];
     let root: Vec<GSel> = match reach {
@@ -591,7 +600,7 @@ pub fn cyclic_doc(k: usize, edges: u32, depth: usize, style: usize, reach: usize
             sels.push(GSel::Field { alias: Some("x".into()), name: if i % 2 == 0 { "a".into() } else { "b".into() }, args: vec![], dirs: vec![], sels: vec![] });
         }
         for j in 0..k {
-            if edges & (1 << (i * k + j)) != 0 {
+            if edges & (1u64 << (i * k + j)) != 0 {
                 let mut inner = vec![GSel::Spread { name: format!("F{}", j), dirs: vec![] }];
                 if noise & 2 != 0 {
                     inner.push(GSel::Field { alias: None, name: "t".into(), args: vec![], dirs: vec![], sels: vec![GSel::Spread { name: format!("F{}", j), dirs: vec![] }, f("a")] });
@@ -628,7 +637,7 @@ pub fn c03_cases(pool: &[SchemaInfo], rng: &mut Rng, tier: &str, shard: (usize, 
                 if idx % shard.1 != shard.0 {
                     continue;
                 }
-                let doc = cyclic_doc(k, edges, rng.below(5), rng.below(3), rng.below(3), rng.below(8) as u32).print();
+                let doc = cyclic_doc(k, edges as u64, rng.below(5), rng.below(3), rng.below(3), rng.below(8) as u32).print();
                 push(&mut cases, &format!("fragment-graph-{}", k), minimal, doc.clone(), all.to_vec(), &mut n);
                 let single = *rng.pick(all);
                 push(&mut cases, "fragment-graph-single-rule", minimal, doc, vec![single], &mut n);
@@ -640,7 +649,7 @@ pub fn c03_cases(pool: &[SchemaInfo], rng: &mut Rng, tier: &str, shard: (usize, 
     for _ in 0..extra {
         let k = 4;
         let edges = (rng.next() & 0xFFFF) as u32 & (rng.next() as u32 | 0x8421);
-        let doc = cyclic_doc(k, edges, rng.below(5), rng.below(3), rng.below(3), rng.below(8) as u32).print();
+        let doc = cyclic_doc(k, edges as u64, rng.below(5), rng.below(3), rng.below(3), rng.below(8) as u32).print();
         push(&mut cases, "fragment-graph-4", minimal, doc, all.to_vec(), &mut n);
     }
     // cyclic fragments reached from mutually exclusive and plain contexts (synthetic schema: A / B objects)
@@ -657,6 +666,14 @@ pub fn c03_cases(pool: &[SchemaInfo], rng: &mut Rng, tier: &str, shard: (usize, 
             "{ ...A } fragment A on Query { t { ...B } } fragment B on T { t { ...B ...C } l { ...C } } fragment C on T { t { ...B t { ...C } } }",
         ] {
             push(&mut cases, "corpus-cycles", minimal, doc.to_string(), all.to_vec(), &mut n);
+        }
+        // one cyclic fragment with two cycles of coprime lengths: the memoised search of the merge
+        // rule nests quadratically deep (the witness that corrected the model's fuel constant)
+        for (a, b) in [(13usize, 12usize), (7, 5), (9, 8), (16, 15)] {
+            let nest = |k: usize| -> String { format!("{}...A{}", "t { ".repeat(k), " }".repeat(k)) };
+            let doc = format!("{{ t {{ ...A }} }} fragment A on T {{ {} {} }}", nest(a), nest(b));
+            push(&mut cases, "corpus-coprime-cycles", minimal, doc.clone(), all.to_vec(), &mut n);
+            push(&mut cases, "corpus-coprime-cycles", minimal, doc, vec!["OverlappingFieldsCanBeMerged"], &mut n);
         }
     }
     // name-pool random documents (wild / deep) on every schema, default plan and singletons
@@ -876,13 +893,18 @@ pub fn exhaustive_family(prop: &str, tier: &str, rng: &mut Rng, shard: (usize, u
                 if idx % shard.1 != shard.0 || (tier != "thorough" && k == 3 && !rng.pct(25)) {
                     continue;
                 }
-                let doc = cyclic_doc(k, edges, rng.below(5), rng.below(3), rng.below(3), rng.below(8) as u32).print();
+                let doc = cyclic_doc(k, edges as u64, rng.below(5), rng.below(3), rng.below(3), rng.below(8) as u32).print();
                 out.push(Case { id: format!("g{}x{}", shard.0, idx), family: format!("fragment-graph-{}", k), schema: minimal, op: "validate".into(), doc: Some(doc), extra: vec![], note: String::new() });
             }
         }
         for j in 0..budget(tier, 1600, 40000) / shard.1 {
             let doc = graph4_doc(rng).print();
             out.push(Case { id: format!("g4{}x{}", shard.0, j), family: "fragment-graph-4".into(), schema: minimal, op: "validate".into(), doc: Some(doc), extra: vec![], note: String::new() });
+        }
+        for j in 0..budget(tier, 800, 30000) / shard.1 {
+            let k = 5 + (j % 2);
+            let doc = graphk_doc(rng, k).print();
+            out.push(Case { id: format!("g{}{}x{}", k, shard.0, j), family: format!("fragment-graph-{}", k), schema: minimal, op: "validate".into(), doc: Some(doc), extra: vec![], note: String::new() });
         }
     }
     if prop == "C06" {
